@@ -67,8 +67,8 @@ func structureOK(t *gobinlog.Transaction, out []byte) (bool, string) {
 				Db    string `json:"db"`
 				Table string `json:"table"`
 			} `json:"name"`
-			Type          string  `json:"type"`
-			SQL           *string `json:"sql"`
+			Type          string                                       `json:"type"`
+			SQL           *string                                      `json:"sql"`
 			RowValues     []struct{ Columns []map[string]interface{} } `json:"rowValues"`
 			RowIdentifies []struct{ Columns []map[string]interface{} } `json:"rowIdentifies"`
 		} `json:"events"`
